@@ -282,6 +282,19 @@ func Block(site string, pred func() bool) {
 	BeforeLock(site, pred)
 }
 
+// SelectOrder draws the order in which the cases of a select are tried.
+func SelectOrder(site string, n int) []int {
+	s := cur.Load()
+	if s == nil || s.dead.Load() || s.cur == nil || n < 2 {
+		p := make([]int, n)
+		for i := range p {
+			p[i] = i
+		}
+		return p
+	}
+	return s.Sched.Perm("sel", n)
+}
+
 // Self returns the token holder's name ("root" for the scheduler).
 func (s *Sim) Self() string {
 	if g := s.cur; g != nil {
